@@ -51,7 +51,12 @@ def _one_sig(case, k):
     kinds = "".join(sorted({machine.KINDCHAR[case["objs"][r]["kind"]] for r in refs}))
     nx = sum(case["objs"][r]["kind"] == "exch" for r in refs)
     defective = ent["tree"][0] == "P" and (nx >= 2 or (nx >= 1 and "D" in kinds))
-    return f"{case['ens']}:{ent['tree'][0]}{kinds}x{nx}", defective
+    shape = ent["tree"][0]
+    if ent.get("swap") and len(tr.get("presel", [])) == 2:
+        # a directed swap (pre-selected deletion, then pre-selected insertion) is not the recorded finding
+        defective = False
+        shape = "S"
+    return f"{case['ens']}:{shape}{kinds}x{nx}", defective
 
 
 def trial_sig(case, k):
@@ -208,6 +213,40 @@ class CollectiveConstraintHistories(Histories):
         return None
 
 
+class FractionalCellHistories(Histories):
+    """cell moves whose deformation is NOT exactly invertible in floating point (factors 1.1, 0.9, 1/3, …) with many
+    vetoed attempts: a failed or rejected trial must give back the positions and the cell bit for bit — undoing a
+    deformation by "scaling back" leaves last-bit differences that accumulate. No model (not integer-valued); the
+    before/after oracle compares exactly."""
+
+    name = "fractional-cell-histories"
+
+    def cases(self, rng, tier):
+        n = 120 if tier == "quick" else 2500
+        for _ in range(n):
+            case = machine.gen_case(rng, "isobaric", tier)
+            if not any(o["kind"] == "cell" for o in case["objs"]):
+                continue
+            for o in case["objs"]:
+                if o["kind"] == "cell":
+                    o["max_attempts"] = rng.choice([1, 2, 3, 4])
+            for tr in case["trials"]:
+                tr["ops"] = [[rng.choice([1.1, 0.9, 1.25, 0.8, 1.0 / 3.0, 3.0, 0.7, 1.0]) for _ in range(3)] for _ in tr["ops"]]
+                tr["checks"] = [rng.random() < 0.4 for _ in tr["checks"]]
+            yield case
+
+    def real(self, case):
+        obs = machine.run_real(case, snap=False)
+        obs.pop("sim")
+        return obs
+
+    def model_lines(self, case):
+        return []
+
+    def known_scope(self, case):
+        return None
+
+
 class RunBoundaries(Histories):
     """histories that span several run() calls: between two runs the user moves atoms / changes the cell
     (`atoms.wrap()`, `atoms.positions = …`, `set_cell`), the next run() starts with validate_simulation(), and the first
@@ -309,4 +348,4 @@ class RunBoundaries(Histories):
 
 
 def suites(tier):
-    return [Histories(), CollectiveConstraintHistories(), RunBoundaries()]
+    return [Histories(), CollectiveConstraintHistories(), RunBoundaries(), FractionalCellHistories()]
